@@ -1,14 +1,18 @@
 """C01 — SMF container: streams."""
-from ..core import Stream, hx
+import os, subprocess, tempfile, shutil
+from ..core import Stream, hx, WORK
 from .. import gen
 from .. import mml
 
 RULE = ("generate: random songs (0-40 tracks, all event kinds, wild values) through the real midi::generate, judged by the "
         "strict container parser Spec.parseSmf (Lean) on the real bytes and compared with the model's bytes; "
-        "compile: sources (multi-track, TIMEBASE, malformed) through the real pipeline, same predicate. "
+        "compile: sources (multi-track, TIMEBASE, malformed) through the real pipeline, same predicate; cli: the file the command-line tool writes over an "
+        "existing (longer) output file is a well-formed container equal to the returned bytes. "
         "non-trivial = distinct (track count, division, chunk lengths) signatures with >= 1 non-empty track")
 ASSUMPTIONS = ["time base 48..32767, track numbers 0..999, chunk bodies < 4 GiB are the quantifier's domain"]
 TRUSTED = ["Spec.Smf.parseSmf (strict container grammar) is my reading of SMF 1.0"]
+
+NEED_CLI = True
 
 def _sig(bin_hex):
     return (len(bin_hex), bin_hex[16:28])
@@ -66,6 +70,39 @@ def streams(tier, rng, P, only=None, cases=None):
     def src_nt(c, impl, m):
         return _sig(impl[1].get("bin", "")) if impl[0] == "ok" and len(impl[1].get("bin", "")) > 60 else None
     s2 = Stream("compile", cases if (cases and only == "compile") else mk_src(), src_model, src_judge, src_nt, "sources through the real pipeline")
-    for s in (s1, s2):
+    # ---- stream 3: the file the command-line tool writes (also over an existing, longer file) is the same container
+    def mk_cli():
+        cs = []
+        n = 60 if big else 12
+        for i in range(n):
+            first, _, _ = mml.multitrack_source(rng, malformed=False)
+            second = rng.choice(["l4 ce", "c", "TR(1) c TR(2) d", mml.multitrack_source(rng, malformed=False)[0]])
+            cs.append(dict(req="run " + hx(second), src=second, first=first, show="%s   (written over the output of: %s)" % (second[:120], first[:120]), key="cli%d" % i))
+        return cs
+    def cli_model(c, status, f):
+        if status != "ok": return []
+        tmp = tempfile.mkdtemp(prefix="sv-cli1-", dir=WORK)
+        try:
+            out = os.path.join(tmp, "song.mid"); got = None
+            for k, text in enumerate((c["first"], c["src"])):
+                srcf = os.path.join(tmp, "s%d.mml" % k); open(srcf, "w", encoding="utf-8").write(text)
+                r = subprocess.run([P.cli, srcf, out], stdout=subprocess.PIPE, stderr=subprocess.PIPE, timeout=60)
+                if r.returncode != 0: c["_cli"] = "rc=%d" % r.returncode; return []
+            got = open(out, "rb").read().hex() or "~"
+            c["_cli"] = got
+        finally:
+            shutil.rmtree(tmp, ignore_errors=True)
+        nt = len(f["tracks"].split(";"))
+        return ["spec.c01 %s %d %s" % (got, nt, f["tb"])]
+    def cli_judge(c, impl, m):
+        st, f = impl
+        if st != "ok": return None
+        if not m: return ("violation", "the command-line tool failed: " + str(c.get("_cli")))
+        if not m[0].startswith("ok holds=1"): return ("violation", "the file written by the command-line tool is not a well-formed container: " + m[0])
+        if c["_cli"] != f["bin"]: return ("violation", "the file written by the command-line tool differs from the bytes compilation returns")
+        return None
+    s3 = Stream("cli", cases if (cases and only == "cli") else mk_cli(), cli_model, cli_judge, lambda c, i, m: c.get("_cli", "")[:200] if i[0] == "ok" else None,
+                "the command-line tool writing over an existing output file", timeout_case=30.0)
+    for s in (s1, s2, s3):
         if only in (None, s.name): out.append(s)
     return out
